@@ -17,6 +17,7 @@ import (
 	"go/token"
 	"os"
 	"path/filepath"
+	"runtime"
 	"sort"
 	"strconv"
 	"strings"
@@ -41,6 +42,7 @@ func main() {
 	repo := flag.String("repo", "/repo", "repository root")
 	out := flag.String("out", "", "output directory")
 	hooks := flag.String("hooks", "", "directory with <pkg path>/*.go files to add to rend packages")
+	detmaps := flag.Bool("detmaps", true, "make Go map iteration start at offset 0 (deterministic for maps of at most 8 entries)")
 	flag.Parse()
 	if *out == "" {
 		fmt.Fprintln(os.Stderr, "need -out")
@@ -94,6 +96,32 @@ func main() {
 			replace[target] = abs
 			return nil
 		})
+	}
+	if *detmaps {
+		// The Go runtime starts every map iteration at a random offset. rend iterates
+		// over maps when it fails outstanding calls after a connection loss and when it
+		// rebuilds a partially answered multi-get, so that randomness would leak into
+		// the order of requests on the wire and break replay. The simulator owns this
+		// source like every other: in the test binary only, iteration starts at offset
+		// 0, which for maps of at most 8 entries (one group, slots filled in insertion
+		// order) makes the order a function of the program's history.
+		src := filepath.Join(runtime.GOROOT(), "src", "internal", "runtime", "maps", "table.go")
+		data, err := os.ReadFile(src)
+		if err != nil {
+			fail(err)
+		}
+		text := string(data)
+		for _, l := range []string{"it.entryOffset = rand()", "it.dirOffset = rand()"} {
+			if strings.Count(text, l) != 1 {
+				fail(fmt.Errorf("cannot find %q in %s (toolchain differs from go1.26.8?)", l, src))
+			}
+			text = strings.Replace(text, l, strings.Replace(l, "rand()", "0", 1), 1)
+		}
+		dst := filepath.Join(*out, "goroot_internal_runtime_maps__table.go")
+		if err := os.WriteFile(dst, []byte(text), 0o644); err != nil {
+			fail(err)
+		}
+		replace[src] = dst
 	}
 	keys := make([]string, 0, len(replace))
 	for k := range replace {
